@@ -6,7 +6,7 @@ MODEL_IS_SPEC = True          # the property IS "behaves like the reference mode
 SPEC_EXEMPT = ('kslist',)     # the keyspace list is only constrained (oracle2), not determined, by the reference model
 RULE = ('one case = one backend (in-memory MemStore, SqliteStorage on a file, LmdbStorage in a directory; the same call sequence is generated for all three) and 1-60 Storage calls over 3 keyspaces: '
         'put / multi_put / mark_as_tombstone / mark_many_as_tombstone / remove_tombstones (only on tombstones: the contract) interleaved with get / multi_get / iter_metadata / get_keyspace_list after '
-        'every mutation; ids from {0,1,2, 2^63-1, 2^63, 2^64-1} and random u64; payloads empty, small, 64 KiB-1 MiB; arbitrary valid stamps; tombstone before any document; remove-then-reuse; '
+        'every mutation; ids from {0,1,2, 2^63-1, 2^63, 2^64-1} and random u64; payloads empty, small, 64 KiB-1 MiB; clock stamps and, one in twelve, ARBITRARY u64 stamps (fractional byte 250..255, seconds at the top of the range); tombstone before any document; remove-then-reuse; '
         'for the persistent backends a real close + reopen is inserted after arbitrary prefixes. Observations are compared with the Lean reference model; the keyspace list with the relation listOk. '
         'non-trivial = at least one tombstone, one overwrite or one reopen; distinct by hash')
 ASSUMPTIONS = ['calls outside the contract are not generated (remove_tombstones on a live id: the three backends do three different things)',
@@ -33,6 +33,11 @@ def gen_ops(rng, heavy):
     def stamp():
         nonlocal t
         t += rng.choice([4, 4, 1000, 60000])
+        if rng.chance(1, 12):
+            # an ARBITRARY u64 as timestamp (HLCTimestamp::from_u64 is public, stamps from the wire are not validated): the fractional
+            # byte may be 250..255, which no clock produces; the seconds may be at the top of their range
+            secs = rng.choice([5, t // 1000, 2 ** 32 - 1, rng.below(2 ** 32)])
+            return (secs << 32) | (rng.choice([250, 251, 255, rng.below(256)]) << 24) | (rng.below(65536) << 8) | rng.below(256)
         return pack(t if rng.chance(4, 5) else max(4, t - rng.below(10 ** 6) * 4), rng.choice([0, 1, 2, 3, 9, 10, 15, 16, 255, 0xABC, 65535]), rng.choice([0, 1, 2, 9, 10, 11, 16, 100, 255]))
     def newid():
         return rng.choice(IDS + [rng.below(2 ** 64), rng.below(5)])
